@@ -21,6 +21,14 @@ TranslateError (broken tie).  Generated definitions (all prefixed s3_ / jwt_):
                                                    (`if b'<Contents>' not in response.content: raise <s3_verify_empty>`),
                                                    "add" (`self._verified_buckets.add(bucket)`); the model interprets them
   s3_verify_missing, s3_verify_empty : string      exceptions raised for a missing / an empty bucket
+  s3_request_override_status : option Z            `status=` keyword of the _retry_object(retries, ...) call that S3ChunkStore.request
+                                                   applies to a PER-CALL `retries` override (None: no such keyword)
+  s3_request_override_forcelist_is_glitches : bool `status_forcelist=_DEFAULT_SERVER_GLITCHES` given to that call?
+  s3_site_overrides : list (string * (Z * list Z)) the `retries=` keyword of EVERY request site (chunk, listing, put, bucket,
+                                                   marker, complete in chunkstore_s3.py; rdb in datasources.py):
+                                                   (0, []) absent / None / the store's own Retry object; (1, [n] | [c; r]) an
+                                                   int / (connect, read) literal; (2, [n] | [c; r]) kwargs.get('retries', lit)
+                                                   = the user's `retries` keyword if given, else the literal (from_url only)
   jwt_sig_alg : string, jwt_sig_len : Z            signature-length check of decode_jwt
   jwt_scheme, jwt_host_exception : string          _auth_factory https rule
 """
@@ -280,7 +288,19 @@ def _request_call(fn, receiver, what):
              and n.func.attr == 'request' and ast.unparse(n.func.value) == receiver]
     if len(calls) != 1:
         raise TranslateError('%s: expected exactly one %s.request(...) call, found %d' % (what, receiver, len(calls)))
-    return [ast.unparse(a) for a in calls[0].args], {k.arg: ast.unparse(k.value) for k in calls[0].keywords}
+    return [ast.unparse(a) for a in calls[0].args], {k.arg: ast.unparse(k.value) for k in calls[0].keywords
+                                                     if k.arg != 'retries'}
+
+
+def _without_retries(node):
+    """Source of a statement / expression with the `retries=` keyword of every <x>.request(...) call in it taken out
+    (that keyword is translated by item_retry_budget; the other items judge the rest of the call)."""
+    import copy
+    node = copy.deepcopy(node)
+    for n in ast.walk(node):
+        if isinstance(n, ast.Call) and isinstance(n.func, ast.Attribute) and n.func.attr == 'request':
+            n.keywords = [k for k in n.keywords if k.arg != 'retries']
+    return ast.unparse(node)
 
 
 def item_streaming(repo, out):
@@ -333,7 +353,7 @@ def item_store_state(repo, out):
             steps.append('add')
         elif isinstance(s, ast.Try):
             if not (len(s.body) == 1 and not s.orelse and not s.finalbody and len(s.handlers) == 1
-                    and ast.unparse(s.body[0]) == "response = self.request('GET', bucket, params={'max-keys': 1})"):
+                    and _without_retries(s.body[0]) == "response = self.request('GET', bucket, params={'max-keys': 1})"):
                 raise TranslateError(what + ': try body is not the single bucket-listing request')
             h = s.handlers[0]
             if not (h.type is not None and _names(h.type) == ['S3ObjectNotFound'] and len(h.body) == 1
@@ -396,8 +416,7 @@ def item_store_state(repo, out):
         if len(stores) != 1 or stores[0] not in list(ast.walk(init)):
             raise TranslateError('self.%s is assigned outside __init__ (or more than once)' % attr)
     req = _func(cls, 'request', REL)
-    rb = [ast.unparse(s) for s in req.body]
-    if 'retries = self.retries if retries is None else _retry_object(retries)' not in rb:
+    if len(_override_call(req).args) != 1:
         raise TranslateError('request: retries do not start from self.retries')
     out.append('Definition s3_verify_steps : list string := %s.' % coq_strings(steps))
     out.append('Definition s3_verify_missing : string := %s.' % coq_string(missing))
@@ -699,7 +718,7 @@ def item_other_sites(repo, out):
         raise TranslateError('put_chunk: the request is not the last statement')
     # mark_complete -> create_array -> _create_bucket
     mc = _func(cls, 'mark_complete', REL)
-    src = [ast.unparse(x) for x in _body(mc)]
+    src = [_without_retries(x) for x in _body(mc)]
     if src != ['self.create_array(array_name)', "obj_name = self.join(array_name, 'complete')",
                'url = self.make_url(obj_name)', "self.request('PUT', url, chunk_name=obj_name, data=b'')"]:
         raise TranslateError('mark_complete: unexpected statements %s' % src)
@@ -712,9 +731,9 @@ def item_other_sites(repo, out):
     if not (isinstance(first, ast.Expr) and isinstance(first.value, ast.Call)
             and ast.unparse(first.value.func) == 'self.request'
             and [ast.unparse(x) for x in first.value.args] == ["'PUT'", 'url']
-            and [k.arg for k in first.value.keywords] == ['ignored_errors']):
+            and [k.arg for k in first.value.keywords if k.arg != 'retries'] == ['ignored_errors']):
         raise TranslateError('_create_bucket: first statement is not self.request(PUT, url, ignored_errors=...)')
-    ign = _const_eval(first.value.keywords[0].value, {}, '_create_bucket')
+    ign = _const_eval([k.value for k in first.value.keywords if k.arg == 'ignored_errors'][0], {}, '_create_bucket')
     rest = [ast.unparse(x).split('\n')[0] for x in cb[1:]]
     if rest != ['if self.public_read:', 'if self.expiry_days > 0:']:
         raise TranslateError('_create_bucket: unexpected statements after the bucket request: %s' % rest)
@@ -775,4 +794,188 @@ def item_urls(repo, out):
             raise TranslateError('%s: url is not make_url(chunk_name + _CHUNK_EXTENSION)' % fn)
 
 
-ITEMS = [item_glitches, item_raise_for_status, item_store_init, item_request, item_jwt, item_streaming, item_store_state, item_jwt_flow, item_other_sites, item_urls]
+# ---------------------------------------------------------------------------------------------------
+# The retry budget in force at every request site = f(store-level `retries` argument, per-call `retries=` override)
+
+_LOG_ROOTS = ('logger', 'logging', 'log', '_logger', 'warnings')
+
+
+def _is_logging(stmt):
+    """`logger.debug(...)`, `logging.info(...)`, `warnings.warn(...)`, `print(...)` as a statement of its own."""
+    if not (isinstance(stmt, ast.Expr) and isinstance(stmt.value, ast.Call)):
+        return False
+    f = stmt.value.func
+    while isinstance(f, ast.Attribute):
+        f = f.value
+    return isinstance(f, ast.Name) and (f.id in _LOG_ROOTS or f.id == 'print')
+
+
+def _clean(fn):
+    """Copy of a function without docstring and logging statements (anywhere in its body): what the templates of
+    item_retry_budget are matched against.  A block emptied that way keeps a `pass`."""
+    import copy
+    fn = copy.deepcopy(fn)
+
+    class Strip(ast.NodeTransformer):
+        def generic_visit(self, node):
+            super().generic_visit(node)
+            for field in ('body', 'orelse', 'finalbody'):
+                block = getattr(node, field, None)
+                if isinstance(block, list) and block and all(isinstance(x, ast.stmt) for x in block):
+                    kept = [x for x in block if not _is_logging(x)]
+                    if field == 'body' and not kept:
+                        kept = [ast.Pass()]
+                    setattr(node, field, kept)
+            return node
+    fn = Strip().visit(fn)
+    fn.body = _body(fn) or [ast.Pass()]
+    return ast.fix_missing_locations(fn)
+
+
+def _override_call(req):
+    """The `_retry_object(retries, ...)` call of `retries = self.retries if retries is None else _retry_object(...)`."""
+    hits = [s for s in _body(req) if isinstance(s, ast.Assign) and ast.unparse(s.targets[0]) == 'retries'
+            and isinstance(s.value, ast.IfExp)]
+    if len(hits) != 1:
+        raise TranslateError('request: expected one `retries = self.retries if retries is None else ...`')
+    e = hits[0].value
+    if ast.unparse(e.test) != 'retries is None' or ast.unparse(e.body) != 'self.retries' or not (
+            isinstance(e.orelse, ast.Call) and _name(e.orelse.func) == '_retry_object'
+            and [ast.unparse(a) for a in e.orelse.args] == ['retries']):
+        raise TranslateError('request: retries are not `self.retries if retries is None else _retry_object(retries, ..)`')
+    return e.orelse
+
+
+def _retries_literal(node, what):
+    v = _const_eval(node, {}, what)
+    if isinstance(v, int) and not isinstance(v, bool):
+        return [v]
+    if isinstance(v, tuple) and len(v) == 2 and all(isinstance(x, int) and not isinstance(x, bool) for x in v):
+        return list(v)
+    raise TranslateError('%s: `retries` literal is neither an int nor a pair of ints' % what)
+
+
+def _site_override(call, fn, what, store_names, allow_kwargs):
+    """(tag, numbers) for the `retries=` keyword of one <x>.request(...) call inside function fn."""
+    kws = [k for k in call.keywords if k.arg == 'retries']
+    if any(k.arg is None for k in call.keywords):
+        src = [ast.unparse(k.value) for k in call.keywords if k.arg is None]
+        raise TranslateError('%s: request is given **%s (may carry a retries override)' % (what, src))
+    if not kws:
+        return (0, [])
+    if len(kws) != 1:
+        raise TranslateError(what + ': more than one retries keyword')
+    v = kws[0].value
+    # a local name bound exactly once in the function stands for its value
+    if isinstance(v, ast.Name):
+        stores = [n for n in ast.walk(fn) if isinstance(n, ast.Name) and n.id == v.id
+                  and isinstance(n.ctx, (ast.Store, ast.Del))]
+        binds = [n for n in ast.walk(fn) if isinstance(n, ast.Assign) and len(n.targets) == 1
+                 and isinstance(n.targets[0], ast.Name) and n.targets[0].id == v.id]
+        if any(isinstance(n, ast.arg) and n.arg == v.id for n in ast.walk(fn)) or len(stores) != 1 or len(binds) != 1:
+            raise TranslateError('%s: retries=%s is not a local name bound exactly once by a plain assignment'
+                                 % (what, v.id))
+        v = binds[0].value
+    if isinstance(v, ast.Constant) and v.value is None:
+        return (0, [])
+    if isinstance(v, ast.Attribute) and v.attr == 'retries' and ast.unparse(v.value) in store_names:
+        return (0, [])          # the store's own Retry object: _retry_object keeps it as it is
+    if allow_kwargs and isinstance(v, ast.Call) and ast.unparse(v.func) == 'kwargs.get' and not v.keywords \
+            and len(v.args) == 2 and isinstance(v.args[0], ast.Constant) and v.args[0].value == 'retries':
+        return (2, _retries_literal(v.args[1], what))
+    try:
+        return (1, _retries_literal(v, what))
+    except TranslateError:
+        raise TranslateError('%s: unrecognised per-call retries override `%s`' % (what, ast.unparse(v)[:60]))
+
+
+def _request_calls(fn, receivers):
+    return [n for n in ast.walk(fn) if isinstance(n, ast.Call) and isinstance(n.func, ast.Attribute)
+            and n.func.attr == 'request' and ast.unparse(n.func.value) in receivers]
+
+
+def item_retry_budget(repo, out):
+    """How S3ChunkStore.request / _retry_object combine the store-level `retries` with a per-call override, and the
+    `retries=` keyword of every request site."""
+    tree = _parse(repo, REL)
+    cls = _class(tree, 'S3ChunkStore', REL)
+    # _retry_object(retries, **defaults): a Retry object is kept, anything else becomes Retry(connect, read, **defaults)
+    ro = [ast.unparse(x) for x in _clean(_func(tree, '_retry_object', REL)).body]
+    if [a.arg for a in _func(tree, '_retry_object', REL).args.args] != ['retries'] or \
+            _func(tree, '_retry_object', REL).args.kwarg is None or \
+            _func(tree, '_retry_object', REL).args.kwarg.arg != 'defaults' or ro != [
+            'if not isinstance(retries, Retry):\n    connect_retries, read_retries = _connect_read_tuple(retries)\n'
+            '    retries = Retry(connect=connect_retries, read=read_retries, **defaults)', 'return retries']:
+        raise TranslateError('_retry_object: unexpected statements %s' % ro)
+    # request(): keywords completing a per-call override
+    req = _func(cls, 'request', REL)
+    call = _override_call(req)
+    kw = {k.arg: k.value for k in call.keywords}
+    if None in kw or not set(kw) <= {'status', 'backoff_factor', 'status_forcelist'}:
+        raise TranslateError('request: unexpected keywords for _retry_object: %s' % sorted(map(str, kw)))
+    status = 'None' if 'status' not in kw else '(Some %s)' % coq_Z(_const_eval(kw['status'], {}, 'request'))
+    if 'status_forcelist' in kw and ast.unparse(kw['status_forcelist']) != '_DEFAULT_SERVER_GLITCHES':
+        raise TranslateError('request: status_forcelist of a per-call override is not _DEFAULT_SERVER_GLITCHES')
+    out.append('Definition s3_request_override_status : option Z := %s.' % status)
+    out.append('Definition s3_request_override_forcelist_is_glitches : bool := %s.'
+               % ('true' if 'status_forcelist' in kw else 'false'))
+    # `retries` is not touched between the signature and that statement, nor `self.retries` swapped
+    names = [ast.unparse(s.targets[0]) for s in _body(req) if isinstance(s, ast.Assign)]
+    if names.count('retries') != 2 or [ast.unparse(s) for s in _body(req) if isinstance(s, ast.Assign)
+                                       and ast.unparse(s.targets[0]) == 'retries'][1] != 'retries = retries.new()':
+        raise TranslateError('request: `retries` is assigned otherwise than override-or-store followed by .new()')
+    # every request site of the class
+    sites = {}
+    expect = {'get_chunk': ['chunk'], '_verify_bucket': ['listing'], 'put_chunk': ['put'],
+              '_create_bucket': ['bucket', 'policy', 'lifecycle'], 'mark_complete': ['marker'], 'is_complete': ['complete']}
+    for fn in [n for n in cls.body if isinstance(n, (ast.FunctionDef, ast.AsyncFunctionDef))]:
+        calls = _request_calls(fn, ('self',))
+        calls.sort(key=lambda c: (c.lineno, c.col_offset))
+        if fn.name == 'request' or not calls:
+            if fn.name == 'request' and calls:
+                raise TranslateError('request calls itself')
+            continue
+        if fn.name not in expect or len(calls) != len(expect[fn.name]):
+            raise TranslateError('S3ChunkStore.%s: %d request call(s), expected %s'
+                                 % (fn.name, len(calls), expect.get(fn.name, 'none')))
+        for nm, c in zip(expect[fn.name], calls):
+            sites[nm] = _site_override(c, fn, 'S3ChunkStore.%s' % fn.name, ('self',), False)
+    other = [n for n in ast.walk(tree) if isinstance(n, ast.Call) and isinstance(n.func, ast.Attribute)
+             and n.func.attr == 'request' and n not in [c for f in cls.body if isinstance(f, ast.FunctionDef)
+                                                        for c in _request_calls(f, ('self',))]]
+    if [ast.unparse(c.func) for c in other] != ['session.request']:
+        raise TranslateError('chunkstore_s3: request calls outside the known sites: %s'
+                             % [ast.unparse(c.func) for c in other])
+    for nm in ('policy', 'lifecycle'):
+        if sites.pop(nm, (0, [])) != (0, []):
+            raise TranslateError('_create_bucket: policy / lifecycle request carries a retries override')
+    if set(sites) != {'chunk', 'listing', 'put', 'bucket', 'marker', 'complete'}:
+        raise TranslateError('chunkstore_s3: request sites found: %s' % sorted(sites))
+    # the RDB download of TelstateDataSource.from_url, and no other request in datasources.py
+    rel = 'katdal/datasources.py'
+    dtree = _parse(repo, rel)
+    fu = _func(_class(dtree, 'TelstateDataSource', rel), 'from_url', rel)
+    calls = [n for n in ast.walk(dtree) if isinstance(n, ast.Call) and isinstance(n.func, ast.Attribute)
+             and n.func.attr == 'request']
+    mine = _request_calls(fu, ('rdb_store',))
+    if len(calls) != 1 or calls != mine:
+        raise TranslateError('datasources: expected the single rdb_store.request(...) call of from_url')
+    sites['rdb'] = _site_override(mine[0], fu, 'from_url', ('rdb_store',), True)
+    # the store the RDB request goes through is built from the user's keyword arguments as they are
+    mk = [n for n in ast.walk(fu) if isinstance(n, ast.Assign) and ast.unparse(n.targets[0]) == 'rdb_store']
+    if len(mk) != 1 or ast.unparse(mk[0].value) != 'S3ChunkStore(store_url, **kwargs)':
+        raise TranslateError('from_url: rdb_store is not S3ChunkStore(store_url, **kwargs)')
+    for n in ast.walk(fu):
+        if isinstance(n, ast.Subscript) and ast.unparse(n.value) == 'kwargs' and isinstance(n.ctx, (ast.Store, ast.Del)) \
+                and 'retries' in ast.unparse(n.slice):
+            raise TranslateError('from_url: kwargs[retries] is rewritten')
+        if isinstance(n, ast.Call) and ast.unparse(n.func) in ('kwargs.pop', 'kwargs.setdefault', 'url_kwargs.pop',
+                                                                'url_kwargs.setdefault') \
+                and n.args and isinstance(n.args[0], ast.Constant) and n.args[0].value == 'retries':
+            raise TranslateError('from_url: the retries keyword is popped / defaulted before the store is built')
+    order = ['chunk', 'rdb', 'listing', 'put', 'bucket', 'marker', 'complete']
+    out.append('Definition s3_site_overrides : list (string * (Z * list Z)) := [%s].'
+               % '; '.join('(%s, (%s, %s))' % (coq_string(k), coq_Z(sites[k][0]), _zlist(sites[k][1])) for k in order))
+
+
+ITEMS = [item_glitches, item_raise_for_status, item_store_init, item_request, item_jwt, item_streaming, item_store_state, item_jwt_flow, item_other_sites, item_urls, item_retry_budget]
